@@ -413,7 +413,8 @@ def _init_types():
                      lambda interp, v=(): set(_hk(x)
                                               for x in interp.iterate(v)))
     T['NoneType'] = TypeV('NoneType', lambda v: v is None)
-    T['object'] = TypeV('object', lambda v: True)
+    T['object'] = TypeV('object', lambda v: True,
+                        construct=lambda it: Opaque('object'))
     T['ndarray'] = TypeV('ndarray', lambda v: isinstance(v, (NDArr, GenArr)))
     T['np.floating'] = TypeV('floating', lambda v: getattr(
         v, 'np_scalar', None) == 'floating')
@@ -527,6 +528,12 @@ class _Iter:
         out = self.items[self.i:]
         self.i = len(self.items)
         return out
+
+    def live_iter(self):
+        # a `for` loop pulls one item at a time: `break` leaves the rest
+        while self.i < len(self.items):
+            self.i += 1
+            yield self.items[self.i - 1]
 
 
 def _cint(x):
@@ -1684,6 +1691,22 @@ def nd_setitem(interp, arr, idx, v):
     if isinstance(idx, tuple):
         if len(idx) == 1:
             return nd_setitem(interp, arr, idx[0], v)
+        if isinstance(idx[0], slice):
+            # a[i0:i1, rest] = v: row by row; v is broadcast along the rows
+            sl = interp._slice(idx[0], len(d))
+            rows = list(range(*sl.indices(len(d))))
+            rest = idx[1:] if len(idx) > 2 else idx[1]
+            vd = _asdata(interp, v)
+            if isinstance(vd, list) and all(
+                    not isinstance(r, slice) for r in idx[1:]):
+                if len(vd) != len(rows):
+                    raise_('ValueError', 'could not broadcast input array')
+                for k, x in zip(rows, vd):
+                    nd_setitem(interp, NDArr(d[k]), rest, NDArr(x) if isinstance(x, list) else x)
+            else:
+                for k in rows:
+                    nd_setitem(interp, NDArr(d[k]), rest, v)
+            return
         k = interp.concretize_index(idx[0], len(d))
         sub = NDArr(d[k])
         return nd_setitem(interp, sub, idx[1:] if len(idx) > 2
@@ -1831,6 +1854,20 @@ class RootsV:
             raise Unsupported('iteration over selected roots')
         return [RootElem(self)]
 
+    def sym_getitem(self, idx, interp):
+        # roots[np.isreal(roots)]: the vectorised spelling of the same idiom
+        if isinstance(idx, RootMask) and idx.roots is self and \
+                self.stage == 'roots':
+            return RootsV(self.coefs, 'selected')
+        raise Unsupported('indexing of np.roots(...)')
+
+
+class RootMask:
+    """np.isreal(np.roots(...))"""
+
+    def __init__(self, roots):
+        self.roots = roots
+
 
 class RootElem:
     def __init__(self, roots):
@@ -1847,12 +1884,16 @@ def np_isreal(interp, x):
         return True
     if is_num(x):
         return True
+    if isinstance(x, RootsV) and x.stage == 'roots':
+        return RootMask(x)
     raise Unsupported('np.isreal(%r)' % type(x))
 
 
 def np_real(interp, x):
     if isinstance(x, list) and len(x) == 1 and isinstance(x[0], RootElem):
         return RootsV(x[0].roots.coefs, 'real')
+    if isinstance(x, RootsV) and x.stage == 'selected':
+        return RootsV(x.coefs, 'real')
     if isinstance(x, list) and any(isinstance(e, RootElem) for e in x):
         raise Unsupported('np.real of mixed roots')
     return x
@@ -1974,6 +2015,66 @@ def np_polyval(interp, p, x):
     return one(xd)
 
 
+def _np_pair(fn):
+    """elementwise binary function with scalar broadcasting (1-D)"""
+    def g(interp, a, b):
+        A = isinstance(a, (NDArr, list, tuple))
+        Bq = isinstance(b, (NDArr, list, tuple))
+        if not A and not Bq:
+            return fn(interp, a, b)
+        la = list(interp.iterate(a)) if A else None
+        lb = list(interp.iterate(b)) if Bq else None
+        n = len(la) if A else len(lb)
+        if A and Bq and len(la) != len(lb):
+            if len(la) == 1:
+                la = la * len(lb)
+                n = len(lb)
+            elif len(lb) == 1:
+                lb = lb * len(la)
+            else:
+                raise_('ValueError', 'operands could not be broadcast together')
+        out = []
+        for k in range(n):
+            x = la[k] if A else a
+            y = lb[k] if Bq else b
+            if isinstance(x, (NDArr, list)) or isinstance(y, (NDArr, list)):
+                out.append(g(interp, x, y))
+            else:
+                out.append(fn(interp, x, y))
+        return NDArr([o.data if isinstance(o, NDArr) else o for o in out])
+    return g
+
+
+def _np_cmp(op):
+    def f(interp, x, y):
+        if op is None:
+            return interp.ops.equals(x, y)
+        if op == 'ne':
+            return interp.ops.unary(ast.Not(), interp.ops.equals(x, y))
+        return interp.ops.compare(op, x, y)
+    return _np_pair(f)
+
+
+def np_flatnonzero(interp, a):
+    """indices of the true / non-zero entries (entries must be decidable on
+    the current path: each test forks the path)"""
+    xs = list(interp.iterate(a))
+    return NDArr([k for k, x in enumerate(xs) if interp.ops.truth(x)])
+
+
+def np_cumsum(interp, a, **kw):
+    out, acc = [], 0
+    for k, x in enumerate(interp.iterate(a)):
+        acc = x if k == 0 else interp.ops.binop(ADD, acc, x)
+        out.append(acc)
+    return NDArr(out)
+
+
+def np_diff(interp, a, **kw):
+    xs = list(interp.iterate(a))
+    return NDArr([interp.ops.binop(SUB, xs[k + 1], xs[k]) for k in range(len(xs) - 1)])
+
+
 def np_where1(interp, cond):
     dc = _flatten(_asdata(interp, cond))
     idx = [k for k, c in enumerate(dc) if interp.ops.truth(c)]
@@ -2029,6 +2130,17 @@ def external_modules(interp):
         'real': B('real', np_real), 'roots': B('roots', np_roots),
         'polyfit': B('polyfit', np_polyfit), 'polyval': B('polyval', np_polyval),
         'isreal': B('isreal', np_isreal),
+        'equal': B('equal', _np_cmp(None)),
+        'not_equal': B('not_equal', _np_cmp('ne')),
+        'less': B('less', _np_cmp(ast.Lt())),
+        'less_equal': B('less_equal', _np_cmp(ast.LtE())),
+        'greater': B('greater', _np_cmp(ast.Gt())),
+        'greater_equal': B('greater_equal', _np_cmp(ast.GtE())),
+        'flatnonzero': B('flatnonzero', np_flatnonzero),
+        'logical_not': B('logical_not', _elementwise(lambda it, x: it.ops.unary(ast.Not(), x))),
+        'maximum': B('maximum', _np_pair(lambda it, a, b: it.ops.max2(a, b))),
+        'minimum': B('minimum', _np_pair(lambda it, a, b: it.ops.min2(a, b))),
+        'cumsum': B('cumsum', np_cumsum), 'diff': B('diff', np_diff),
     }
     np_tab['linalg'] = _mod('numpy.linalg', {'lstsq': B('lstsq', np_lstsq)})
     E['numpy'] = np_mod = _mod('numpy', np_tab)
@@ -2180,13 +2292,203 @@ def external_modules(interp):
     E['datetime.datetime'] = _mod('datetime.datetime', {'now': B('now', now)})
     E['datetime'] = _mod('datetime', {'datetime': E['datetime.datetime']})
     E['re'] = _mod('re', _re_table(interp))
-    E['itertools'] = _mod('itertools', {
-        'product': B('product', lambda it, *seqs, **k: _product(it, seqs, k)),
-        'chain': B('chain', lambda it, *seqs: [x for s in seqs
-                                               for x in it.iterate(s)]),
-        'repeat': B('repeat', lambda it, x, n: [x] * _cint(n)),
-    })
+    E['itertools'] = _mod('itertools', _itertools_table(interp))
+    E['operator'] = _mod('operator', _operator_table(interp))
+    E['functools'] = _mod('functools', _functools_table(interp))
     return E
+
+
+class CallableNS:
+    """callable with attributes (itertools.chain / chain.from_iterable)"""
+
+    def __init__(self, name, fn, attrs):
+        self.name = name
+        self.fn = fn
+        self.attrs = attrs
+
+    def sym_call(self, it, args, kwargs):
+        return self.fn(it, *args, **kwargs)
+
+    def sym_getattr(self, name, it):
+        if name in self.attrs:
+            return self.attrs[name]
+        raise_('AttributeError', '%s has no attribute %s' % (self.name, name))
+
+
+def _itertools_table(interp):
+    def B(name, fn):
+        return Builtin(name, fn, pass_interp=True)
+
+    def chain(it, *seqs):
+        return _Iter([x for s in seqs for x in it.iterate(s)])
+
+    def from_iterable(it, seqs):
+        return _Iter([x for s in it.iterate(seqs) for x in it.iterate(s)])
+
+    def repeat(it, x, times=None):
+        if times is None:
+            raise Unsupported('itertools.repeat without a count')
+        return _Iter([x] * max(0, _cint(times)))
+
+    def accumulate(it, iterable, func=None, initial=None):
+        xs = list(it.iterate(iterable))
+        out = []
+        if initial is not None:
+            acc = initial
+            out.append(acc)
+        elif xs:
+            acc = xs.pop(0)
+            out.append(acc)
+        for x in xs:
+            acc = it.ops.binop(ADD, acc, x) if func is None else \
+                it.call(func, [acc, x], {})
+            out.append(acc)
+        return _Iter(out)
+
+    def islice(it, iterable, *a):
+        xs = list(it.iterate(iterable))
+        a = [None if v is None else _cint(v) for v in a]
+        return _Iter(xs[slice(*a)])
+
+    def starmap(it, f, iterable):
+        return _Iter([it.call(f, list(it.iterate(t)), {})
+                      for t in it.iterate(iterable)])
+
+    def zip_longest(it, *seqs, fillvalue=None):
+        ls = [list(it.iterate(s)) for s in seqs]
+        n = max([len(l) for l in ls] or [0])
+        return _Iter([tuple(l[k] if k < len(l) else fillvalue for l in ls)
+                      for k in range(n)])
+
+    def pairwise(it, iterable):
+        xs = list(it.iterate(iterable))
+        return _Iter(list(zip(xs, xs[1:])))
+
+    def takewhile(it, pred, iterable):
+        out = []
+        for x in it.iterate(iterable):
+            if not it.ops.truth(it.call(pred, [x], {})):
+                break
+            out.append(x)
+        return _Iter(out)
+
+    def dropwhile(it, pred, iterable):
+        xs = list(it.iterate(iterable))
+        k = 0
+        while k < len(xs) and it.ops.truth(it.call(pred, [xs[k]], {})):
+            k += 1
+        return _Iter(xs[k:])
+
+    def count(it, start=0, step=1):
+        raise Unsupported('itertools.count (unbounded)')
+
+    def combinations(it, iterable, r):
+        import itertools
+        return _Iter([tuple(t) for t in itertools.combinations(
+            list(it.iterate(iterable)), _cint(r))])
+
+    def permutations(it, iterable, r=None):
+        import itertools
+        xs = list(it.iterate(iterable))
+        return _Iter([tuple(t) for t in itertools.permutations(
+            xs, None if r is None else _cint(r))])
+
+    return {
+        'product': B('product', lambda it, *seqs, **k: _Iter(_product(it, seqs, k))),
+        'chain': CallableNS('itertools.chain', chain,
+                            {'from_iterable': B('from_iterable', from_iterable)}),
+        'repeat': B('repeat', repeat),
+        'accumulate': B('accumulate', accumulate),
+        'islice': B('islice', islice), 'starmap': B('starmap', starmap),
+        'zip_longest': B('zip_longest', zip_longest),
+        'pairwise': B('pairwise', pairwise),
+        'takewhile': B('takewhile', takewhile),
+        'dropwhile': B('dropwhile', dropwhile), 'count': B('count', count),
+        'combinations': B('combinations', combinations),
+        'permutations': B('permutations', permutations),
+    }
+
+
+def _operator_table(interp):
+    def B(name, fn):
+        return Builtin(name, fn, pass_interp=True)
+    t = {}
+    for nm, op in (('add', ast.Add()), ('sub', ast.Sub()), ('mul', ast.Mult()),
+                   ('truediv', ast.Div()), ('floordiv', ast.FloorDiv()),
+                   ('mod', ast.Mod()), ('pow', ast.Pow()),
+                   ('matmul', ast.MatMult())):
+        def f(it, a, b, _op=op):
+            if isinstance(a, str) and isinstance(_op, ast.Mod):
+                return str_percent(it, a, b)
+            return it.ops.binop(_op, a, b)
+        t[nm] = B(nm, f)
+        # in-place forms: same protocol as the augmented assignment statement
+        t['i' + nm] = B('i' + nm, lambda it, a, b, _op=op: it.aug(_op, a, b))
+    for nm, op in (('lt', ast.Lt()), ('le', ast.LtE()), ('gt', ast.Gt()),
+                   ('ge', ast.GtE())):
+        t[nm] = B(nm, lambda it, a, b, _op=op: it.ops.compare(_op, a, b))
+    t['eq'] = B('eq', lambda it, a, b: it.ops.equals(a, b))
+    t['ne'] = B('ne', lambda it, a, b: it.ops.unary(ast.Not(), it.ops.equals(a, b)))
+    t['neg'] = B('neg', lambda it, a: it.ops.unary(ast.USub(), a))
+    t['pos'] = B('pos', lambda it, a: it.ops.unary(ast.UAdd(), a))
+    t['abs'] = B('abs', py_abs)
+    t['not_'] = B('not_', lambda it, a: it.ops.unary(ast.Not(), a))
+    t['truth'] = B('truth', lambda it, a: it.ops.truth_value(a))
+    t['is_'] = B('is_', lambda it, a, b: it.ops.is_(a, b))
+    t['is_not'] = B('is_not', lambda it, a, b: it.ops.unary(ast.Not(), it.ops.is_(a, b)))
+    t['contains'] = B('contains', lambda it, a, b: it.ops.contains(a, b))
+    t['getitem'] = B('getitem', lambda it, a, b: it.getitem(a, b))
+    t['index'] = B('index', lambda it, a: to_int(it, a))
+
+    def itemgetter(it, *keys):
+        if len(keys) == 1:
+            return B('itemgetter', lambda it2, o: it2.getitem(o, keys[0]))
+        return B('itemgetter', lambda it2, o: tuple(it2.getitem(o, k) for k in keys))
+
+    def attrgetter(it, *names):
+        def one(it2, o, nm):
+            for part in nm.split('.'):
+                o = it2.getattr(o, part)
+            return o
+        if len(names) == 1:
+            return B('attrgetter', lambda it2, o: one(it2, o, names[0]))
+        return B('attrgetter', lambda it2, o: tuple(one(it2, o, n) for n in names))
+
+    def methodcaller(it, name, *a, **k):
+        return B('methodcaller', lambda it2, o: it2.call(it2.getattr(o, name), list(a), dict(k)))
+    t['itemgetter'] = B('itemgetter', itemgetter)
+    t['attrgetter'] = B('attrgetter', attrgetter)
+    t['methodcaller'] = B('methodcaller', methodcaller)
+    return t
+
+
+class PartialV:
+    def __init__(self, f, args, kwargs):
+        self.f, self.args, self.kwargs = f, list(args), dict(kwargs)
+
+    def sym_call(self, it, args, kwargs):
+        kw = dict(self.kwargs)
+        kw.update(kwargs)
+        return it.call(self.f, self.args + list(args), kw)
+
+
+def _functools_table(interp):
+    def B(name, fn):
+        return Builtin(name, fn, pass_interp=True)
+
+    def reduce(it, function, iterable, *initial):
+        xs = list(it.iterate(iterable))
+        if initial:
+            acc = initial[0]
+        elif xs:
+            acc = xs.pop(0)
+        else:
+            raise_('TypeError', 'reduce() of empty iterable with no initial value')
+        for x in xs:
+            acc = it.call(function, [acc, x], {})
+        return acc
+    return {'reduce': B('reduce', reduce),
+            'partial': B('partial', lambda it, f, *a, **k: PartialV(f, a, k))}
 
 
 def _unsup(name):
@@ -2473,12 +2775,18 @@ class MatchV:
 class GroupV:
     """match object whose whole-match text is known"""
 
-    def __init__(self, text):
+    def __init__(self, text, interp=None):
         self.text = text
 
     def sym_getattr(self, name, interp):
         if name == 'group':
             return Builtin('group', lambda *a: self.text)
+        if name == 'start':
+            return Builtin('start', lambda *a: 0)
+        if name == 'end':
+            return Builtin('end', lambda *a: py_len(interp, self.text))
+        if name == 'span':
+            return Builtin('span', lambda *a: (0, py_len(interp, self.text)))
         raise_('AttributeError', name)
 
 
@@ -2492,10 +2800,11 @@ def _re_table(interp):
         def f(it, pattern, *args, **kw):
             if not conc(pattern, *args):
                 from . import sstr
-                if fn == 'search' and pattern == '^\\d+\\.?\\d*' and \
-                        len(args) == 1:
+                if ((fn == 'search' and pattern == '^\\d+\\.?\\d*') or
+                    (fn == 'match' and pattern in ('\\d+\\.?\\d*', '^\\d+\\.?\\d*'))) \
+                        and len(args) == 1:
                     r = sstr.number_prefix(args[0], it)
-                    return None if r is None else GroupV(r)
+                    return None if r is None else GroupV(r, it)
                 raise Unsupported('re.%s on symbolic strings' % fn)
             try:
                 r = getattr(_re, fn)(pattern, *args, **kw)
